@@ -24,7 +24,11 @@
 static uint64_t g_seed;
 static int g_w, g_nw, g_rep;
 static long long g_task;
-static char g_desc[900];
+static char g_desc[1800];
+
+/* implementations that already failed against the reference in the current case */
+static const char *g_failed[64];
+static int g_nfailed;
 
 static int
 take(void)
@@ -96,6 +100,7 @@ judge(const char *statname, const char *prim, const char *impl, const char *aspe
 	vf_stat("cmp_ref", 1);
 	vf_stat(statname, 1);
 	if (len == 0 || memcmp(got, exp, len) == 0) return 1;
+	if (g_nfailed < 64) g_failed[g_nfailed ++] = impl;
 	d = first_diff(got, exp, len);
 	n = len - d < 16 ? len - d : 16;
 	snprintf(key, sizeof key, "C12:%s:%s:%s", prim, impl, aspect);
@@ -111,8 +116,14 @@ judge_pair(const char *prim, const char *aspect, const char *ia, const char *ib,
 {
 	char key[200];
 
+	int i;
+
 	vf_stat("cmp_pair", 1);
 	if (len == 0 || memcmp(a, b, len) == 0) return;
+	for (i = 0; i < g_nfailed; i ++) {
+		/* already reported against the reference: the disagreement is explained, no second key */
+		if (g_failed[i] == ia || g_failed[i] == ib) { vf_stat("pair_mismatch_explained", 1); return; }
+	}
 	snprintf(key, sizeof key, "C12:%s:pair-%s-%s:%s", prim, ia, ib, aspect);
 	vf_viol(key, "two implementations disagree", "%s diff_at=%zu", g_desc,
 		first_diff(a, b, len));
@@ -399,6 +410,8 @@ chacha_case(const unsigned char *key_, const unsigned char *iv_, uint32_t cc0,
 	int last_full = (ch->n[ch->cnt - 1] % 64) == 0;
 	size_t nblk = (len + 63) / 64;
 
+	g_nfailed = 0;
+
 	ref_chacha(key_, iv_, cc0, pt, exp, len);
 	for (i = 0; i < n_cha; i ++) {
 		unsigned char *key = vf_dup(key_, 32), *ivb = vf_dup(iv_, 12);
@@ -532,7 +545,7 @@ sec_chacha(size_t everylen, size_t maxlen, size_t exh, long nrand, int sec)
 		if (vf_below(&r, 3) == 0) ch = ch_one(len); else { ch = ch_rand(&r, len, 64); vf_stat("splits", 1); }
 		cha_desc("chacha-rand", idx, key, iv, cc, len, &ch, off);
 		chacha_case(key, iv, cc, pt, len, &ch, off);
-		vf_distinct("config", "chacha20/len%zu/%d", len, ch.cnt);
+		vf_distinct("config", "chacha20/mod64=%zu/q256=%zu/%d", len % 64, len / 256, ch.cnt);
 		free(pt);
 	}
 }
@@ -582,6 +595,8 @@ poly_run_all(const char *prim, const unsigned char *key_, const unsigned char *i
 	const char *names[2 * MAXIMPL * MAXIMPL];
 	int nt = 0, i, c, dir, a, b2;
 	int ncha = use_fake ? 1 : n_cha;
+
+	g_nfailed = 0;
 
 	for (i = 0; i < n_pol; i ++) for (c = 0; c < ncha; c ++) for (dir = 0; dir < 2; dir ++) {
 		unsigned char *key = vf_dup(key_, 32), *ivb = vf_dup(iv_, 12), *aad = vf_dup(aad_, aadlen);
@@ -670,7 +685,7 @@ sec_poly(size_t everylen, size_t maxlen, long nrand, int sec)
 		pt = xmalloc(dl); vf_bytes(&r, pt, dl); aad = xmalloc(al); vf_bytes(&r, aad, al);
 		pol_desc("poly-rand", idx, key, iv, al, dl, off);
 		poly_case(key, iv, aad, al, pt, dl, off);
-		vf_distinct("config", "poly1305/len%zu/aad%zu", dl, al);
+		vf_distinct("config", "poly1305/mod16=%zu/q256=%zu/aadmod16=%zu/aadq256=%zu", dl % 16, dl / 256, al % 16, al / 256);
 		free(pt); free(aad);
 	}
 }
@@ -805,10 +820,10 @@ poly_edge_case(vf_rng *rg, uint64_t idx, int rmode, int smode, int tmode, int de
 }
 
 static void
-sec_poly_edge(int sec, int reps_inner)
+sec_poly_edge(int sec, int reps_inner, int standin, int real)
 {
 	int rmode, smode, tmode, delta, q;
-	for (q = 0; q < reps_inner; q ++)
+	for (q = 0; standin && q < reps_inner; q ++)
 	for (tmode = 0; tmode < 3; tmode ++) for (rmode = 0; rmode < 4; rmode ++) for (smode = 0; smode < 3; smode ++)
 	for (delta = -12; delta <= 12; delta ++) {
 		vf_rng r;
@@ -821,7 +836,7 @@ sec_poly_edge(int sec, int reps_inner)
 		poly_edge_case(&r, idx, rmode, smode, tmode, delta, 0);
 	}
 	/* the same accumulator targets through the genuine ChaCha20 (nothing outside the documented interface) */
-	for (q = 0; q < reps_inner * 6; q ++) for (delta = -12; delta <= 12; delta ++) {
+	for (q = 0; real && q < reps_inner * 6; q ++) for (delta = -12; delta <= 12; delta ++) {
 		vf_rng r;
 		uint64_t idx = 5000000 + (uint64_t)q * 100 + (uint64_t)(delta + 12);
 		if (!take()) continue;
@@ -843,6 +858,8 @@ ghash_case(const unsigned char *y0, const unsigned char *h_, const unsigned char
 	unsigned char exp[16], ys[MAXIMPL][16];
 	int i, j, c;
 	const char *asp = ch->cnt > 1 ? "split" : "y";
+
+	g_nfailed = 0;
 
 	memcpy(exp, y0, 16);
 	ref_ghash(exp, h_, data, len);
@@ -950,7 +967,7 @@ sec_ghash(size_t everylen, size_t maxlen, size_t exh, long nrand, int sec)
 		if (vf_below(&r, 3) == 0) ch = ch_one(len); else { ch = ch_rand(&r, len, 16); vf_stat("splits", 1); }
 		gh_desc("ghash-rand", idx, y, h, len, &ch, off);
 		ghash_case(y, h, d, len, &ch, off);
-		vf_distinct("config", "ghash/len%zu/%d", len, ch.cnt);
+		vf_distinct("config", "ghash/mod16=%zu/q256=%zu/%d", len % 16, len / 256, ch.cnt);
 		free(d);
 	}
 }
@@ -1002,7 +1019,7 @@ main(int argc, char **argv)
 		g_rep = rep;
 		if (ON("chacha")) sec_chacha(every, maxlen, exh, nrand * 2, 21);
 		if (ON("poly")) sec_poly(every, maxlen, nrand, 22);
-		if (ON("edge")) sec_poly_edge(23, 2);
+		if (ON("edge") || ON("crafted")) sec_poly_edge(23, 2, ON("edge"), ON("crafted"));
 		if (ON("ghash")) sec_ghash(every, maxlen, exh, nrand * 2, 24);
 	}
 	vf_max("tasks_enumerated", g_task);
